@@ -393,16 +393,17 @@ class AnsiString:
             # Ignore - nothing to apply
             return
 
+        # Parse the settings before anything is modified since this raises an exception for invalid settings
+        if not settings:
+            ansi_settings = None
+        else:
+            ansi_settings = _AnsiSettingPoint._scrub_ansi_settings(settings)
+
         if start not in self._fmts:
             self._fmts[start] = _AnsiSettingPoint()
 
         if end not in self._fmts:
             self._fmts[end] = _AnsiSettingPoint()
-
-        if not settings:
-            ansi_settings = None
-        else:
-            ansi_settings = _AnsiSettingPoint._scrub_ansi_settings(settings)
 
         removed_settings = []
         for idx, settings_point, current_settings in _AnsiSettingsIterator(self._fmts):
